@@ -3,6 +3,7 @@ a loaded document plus an edit history), writes them, returns the written bytes.
 stdin: {'recipes': [recipe, ...]} -> stdout: [{'ok', 'error', 'docs': [b64, ...], 'notes'}].
 The harness (not this process) validates and checks the bookkeeping of the bytes."""
 import base64
+import copy
 import io
 import json
 import sys
@@ -479,6 +480,90 @@ def apply_op(b, op, nodes_by_id, docs):
             m.scenes[i] = new
             if m.scene is old:
                 m.scene = new
+    elif k == 'dup_source':
+        # a source cloned (its element too) and given a new id, next to the original
+        gs = [g for g in m.geometries]
+        if gs:
+            g = gs[op[1] % len(gs)]
+            srcs = [s for s in g.sourceById.values() if isinstance(s, source.FloatSource)]
+            if srcs:
+                s2 = copy.deepcopy(srcs[op[2] % len(srcs)])
+                s2.id = op[3]
+                g.sourceById[s2.id] = s2
+    elif k == 'rename_source_reuse':
+        # a source no primitive reads is renamed and a NEW source takes its old id
+        gs = [g for g in m.geometries]
+        if gs:
+            g = gs[op[1] % len(gs)]
+            used = set()
+            for p in g.primitives:
+                for lst in p.sources.values():
+                    for inp in lst:
+                        used.add(id(inp[4]))
+            vn = g.xmlnode.find('%s/%s' % (collada.common.tag('mesh'), collada.common.tag('vertices')))
+            vrefs = {i.get('source', '')[1:] for i in vn.findall(collada.common.tag('input'))} if vn is not None else set()
+            free = [s for s in g.sourceById.values() if isinstance(s, source.FloatSource) and id(s) not in used and s.id not in vrefs]
+            seen, uniq = set(), []
+            for s in free:
+                if id(s) not in seen:
+                    seen.add(id(s))
+                    uniq.append(s)
+            if uniq:
+                s = uniq[op[2] % len(uniq)]
+                old = s.id
+                for key in [kk for kk, vv in g.sourceById.items() if vv is s]:
+                    del g.sourceById[key]
+                s.id = op[3]
+                g.sourceById[s.id] = s
+                if op[4]:
+                    g.sourceById[old] = source.FloatSource(old, f32([1.0, 2.0, 3.0, 4.0]), ('S', 'T'))
+    elif k == 'dup_object':
+        lib = getattr(m, op[1])
+        if len(lib) > 0:
+            o = lib[op[2] % len(lib)]
+            if not o.id:
+                return
+            if op[1] in ('lights', 'cameras'):
+                new = copy.deepcopy(o)
+            elif op[1] == 'materials':
+                new = copy.copy(o)
+                new.xmlnode = copy.deepcopy(o.xmlnode)
+            elif op[1] == 'effects':
+                new = copy.copy(o)
+                new.xmlnode = copy.deepcopy(o.xmlnode)
+                new.params = []
+                for prop in SHADER_PROPS['phong']:
+                    if isinstance(getattr(new, prop), material.Map):
+                        setattr(new, prop, None)
+            elif op[1] == 'geometries':
+                srcs = []
+                for n, s in enumerate(s for s in o.sourceById.values() if isinstance(s, source.Source)):
+                    if any(s is x[0] for x in srcs):
+                        continue
+                    s2 = copy.deepcopy(s)
+                    srcs.append((s, s2))
+                for n, (s, s2) in enumerate(srcs):
+                    s2.id = '%s.%d' % (op[3], n)
+                new = geometry.Geometry(m, op[3], o.name, [s2 for _, s2 in srcs])
+            else:
+                return
+            new.id = op[3]
+            lib.append(new)
+    elif k == 'dup_node':
+        ns = all_nodes(m)
+        if ns and len(m.scenes):
+            n = ns[op[1] % len(ns)]
+            n2 = scene.Node(op[2], children=[], transforms=[copy.deepcopy(t) for t in n.transforms], name=n.name)
+            m.scenes[op[3] % len(m.scenes)].nodes.append(n2)
+    elif k == 'effect_add_params':
+        # the first <newparam>s of an effect (in front of its <technique>)
+        if len(m.effects) and len(m.images):
+            e = m.effects[op[1] % len(m.effects)]
+            sf = material.Surface(op[2], m.images[op[4] % len(m.images)], op[5])
+            sm = material.Sampler2D(op[3], sf, op[6], op[7])
+            e.params = list(e.params) + [sf, sm]
+            if op[8] and 'diffuse' in SHADER_PROPS.get(e.shadingtype, []):
+                e.diffuse = material.Map(sm, 'UV')
     elif k == 'set_scene':
         m.scene = m.scenes[op[1] % len(m.scenes)] if (op[1] is not None and len(m.scenes)) else None
     else:
